@@ -61,6 +61,7 @@ fn main() {
             "vanishdata" => Some(ctl_scen::vanishdata_family),
             "idle" => Some(ctl_scen::idle_family),
             "midline" => Some(ctl_scen::midline_family),
+            "expmt" => Some(ctl_scen::expmt_family),
             "par" => Some(ctl_scen::par_family),
             _ => None,
         };
